@@ -5,4 +5,4 @@ P=$(readlink -f "$1"); shift; [ "$1" = "--" ] && shift
 D=$(mktemp -d /tmp/wp-XXXXXX); trap 'rm -rf "$D"' EXIT
 rsync -a --exclude .git /repo/ "$D/"
 (cd "$D" && patch -s -p1 $REV < "$P") || { echo "patch failed"; exit 9; }
-cd /verif && PYVC_REPO=$D PYTHONPATH=$D:/verif "$@"
+mkdir -p "$D/_ev" "$D/_rp"; cd /verif && PYVC_EVIDENCE_DIR="$D/_ev" PYVC_REPLAY_DIR="$D/_rp" PYVC_REPO=$D PYTHONPATH=$D:/verif "$@"
